@@ -23,7 +23,9 @@ import (
 	"crypto/sha256"
 	"crypto/x509"
 	"encoding/json"
+	"encoding/pem"
 	"fmt"
+	"sort"
 	"strings"
 	"testing"
 	"time"
@@ -79,10 +81,28 @@ func (t c09Tuple) Ambiguous() bool {
 
 // c09Item is one unit of the enumeration and the replay input.
 type c09Item struct {
-	Tuple     *c09Tuple `json:"tuple,omitempty"`
-	Malformed string    `json:"malformed,omitempty"`
-	Endpoint  string    `json:"endpoint,omitempty"`
-	Fault     *c09Fault `json:"fault,omitempty"`
+	Tuple     *c09Tuple  `json:"tuple,omitempty"`
+	Malformed string     `json:"malformed,omitempty"`
+	Endpoint  string     `json:"endpoint,omitempty"`
+	Fault     *c09Fault  `json:"fault,omitempty"`
+	Reload    *c09Reload `json:"reload,omitempty"`
+	Cross     *c09Cross2 `json:"cross,omitempty"`
+}
+
+// c09Reload is one root-reload history: a sequence of accepted sets over the
+// alphabet 1 = root "accepted", 2 = root "removed", 3 = root "added" (order
+// inside a step is the order in the PEM file).
+type c09Reload struct {
+	Name  string   `json:"name"`
+	Steps []string `json:"steps"` // e.g. ["12","1"]
+}
+
+// c09Cross2 is one cross-chain resubmission scenario: the same leaf submitted
+// through two different valid chains (I1 certified by two accepted roots).
+type c09Cross2 struct {
+	Type  string `json:"type"`  // cert | precert
+	Mode  string `json:"mode"`  // after-sequencing | same-pool
+	Order string `json:"order"` // AB | BA (A = via root "accepted", B = via the cross certificate and root "removed")
 }
 
 // c09Fault is one issuer-storage fault scenario: an acceptable chain of the
@@ -104,6 +124,10 @@ func (it c09Item) Label() string {
 	switch {
 	case it.Tuple != nil:
 		return it.Tuple.Label()
+	case it.Reload != nil:
+		return fmt.Sprintf("root-reload/%s/%s", it.Reload.Name, strings.Join(it.Reload.Steps, ">"))
+	case it.Cross != nil:
+		return fmt.Sprintf("cross-chain/type=%s/mode=%s/order=%s", it.Cross.Type, it.Cross.Mode, it.Cross.Order)
 	case it.Fault != nil && it.Fault.Park != "":
 		return fmt.Sprintf("issuer-fault/concurrent/shape=%s/issuer=%d/park=%s/then=%s", it.Fault.Shape, it.Fault.Issuer, it.Fault.Park, it.Fault.Then)
 	case it.Fault != nil:
@@ -116,7 +140,7 @@ func (it c09Item) scenario() string {
 	switch {
 	case it.Tuple != nil:
 		return "chain"
-	case it.Fault != nil:
+	case it.Fault != nil, it.Reload != nil, it.Cross != nil:
 		return it.Label()
 	}
 	return "malformed"
@@ -353,6 +377,186 @@ func c09RunFault(rp *verifmc.Report, it c09Item) {
 	rp.Sample(map[string]any{"case": it.Label(), "status_step1_2_3": codes, "faults_injected": env.be.injected})
 }
 
+var c09ReloadHistories = []c09Reload{
+	{"strict-subset", []string{"12", "1"}},
+	{"strict-superset", []string{"1", "12"}},
+	{"remove-and-add", []string{"12", "23"}},
+	{"identical", []string{"1", "1"}},
+	{"reordered", []string{"12", "21"}},
+	{"disjoint", []string{"1", "2"}},
+	{"subset-then-superset", []string{"12", "1", "12"}},
+	{"shrink-twice", []string{"123", "12", "2"}},
+	{"subset-of-three", []string{"123", "13"}},
+}
+
+// c09RunReload plays one reload history on a fresh log. After EVERY reload:
+// get-roots == exactly the new set, _roots.pem in storage == the new PEM, and
+// one chain per root (accepted/removed/added/unknown PKI) is accepted iff its
+// root is in the new set, with all the leaf/issuer/SCT checks.
+func c09RunReload(rp *verifmc.Report, it c09Item) {
+	c09InitPKI()
+	c09InstallClock()
+	r := &c09Runner{rp: rp, env: c09NewEnv(), codes: map[string][2]int{}, owner: &it}
+	defer r.env.close()
+	env := r.env
+	for _, root := range c09Roots {
+		r.items = append(r.items, c09Item{Tuple: &c09Tuple{Root: root, Shape: "leaf_i1", NotAfter: "start+1s", Type: "cert", Endpoint: "add-chain", EKU: "serverAuth"}})
+	}
+	names := map[byte]string{'1': "accepted", '2': "removed", '3': "added"}
+	var trace []any
+	for step, set := range it.Reload.Steps {
+		var cas []*c09CA
+		for i := 0; i < len(set); i++ {
+			n, ok := names[set[i]]
+			if !ok {
+				c09Fail("bad reload step %q", set)
+			}
+			cas = append(cas, c09PKIs[n].root)
+		}
+		pemBytes, err := env.setRoots(cas...)
+		if err != nil {
+			r.viol(it, "reload %d to {%s}: SetRootsFromPEM failed: %v", step, set, err)
+			return
+		}
+		if err := env.checkGetRoots(); err != nil {
+			r.viol(it, "after reload %d to {%s}: %v", step, set, err)
+		}
+		// Persistence is judged on content (the set of certificates in the stored
+		// file), not on bytes: the property does not fix the file's formatting.
+		if stored, err := env.be.peek("_roots.pem"); err != nil {
+			r.viol(it, "after reload %d to {%s}: _roots.pem missing from storage: %v", step, set, err)
+		} else if got, want := c09PEMSet(stored), c09PEMSet(pemBytes); got != want {
+			r.viol(it, "after reload %d to {%s}: _roots.pem in storage holds certificates %s, the reloaded set is %s", step, set, got, want)
+		}
+		codes := r.phase(step)
+		trace = append(trace, map[string]any{"set": set, "status_accepted_unknown_added_removed": codes})
+	}
+	// The last set survives a restart.
+	env.log.CloseCache()
+	env.log = nil
+	env.load()
+	if err := env.checkGetRoots(); err != nil {
+		r.viol(it, "after restart: %v", err)
+	}
+	rp.Eval(it.Label())
+	rp.Sample(map[string]any{"case": it.Label(), "steps": trace})
+}
+
+// c09PEMSet renders the sorted set of certificate fingerprints in a PEM file.
+func c09PEMSet(b []byte) string {
+	var fps []string
+	for {
+		var blk *pem.Block
+		blk, b = pem.Decode(b)
+		if blk == nil {
+			break
+		}
+		fps = append(fps, fmt.Sprintf("%.6x", sha256.Sum256(blk.Bytes)))
+	}
+	sort.Strings(fps)
+	return fmt.Sprint(fps)
+}
+
+func c09EnumerateCross() []c09Item {
+	var out []c09Item
+	for _, typ := range c09Types {
+		for _, mode := range []string{"after-sequencing", "same-pool"} {
+			for _, order := range []string{"AB", "BA"} {
+				out = append(out, c09Item{Cross: &c09Cross2{Type: typ, Mode: mode, Order: order}})
+			}
+		}
+	}
+	return out
+}
+
+// c09RunCross submits ONE leaf through two different valid chains: A = [leaf,
+// I1] (root "accepted" omitted) and B = [leaf, cross-certified I1] (root
+// "removed" omitted), both roots accepted. Either after the first was sequenced
+// (deduplication cache) or while it is pending in the same pool. Both must be
+// accepted; every accepted request's own verified chain must be retrievable in
+// full at the end. Which chain's fingerprints the single stored leaf carries is
+// not judged.
+func c09RunCross(rp *verifmc.Report, it c09Item) {
+	c09InitPKI()
+	c09InstallClock()
+	r := &c09Runner{rp: rp, items: []c09Item{it}, env: c09NewEnv(), codes: map[string][2]int{}}
+	defer r.env.close()
+	env := r.env
+	if _, err := env.setRoots(c09PKIs["accepted"].root, c09PKIs["removed"].root); err != nil {
+		c09Fail("SetRootsFromPEM: %v", err)
+	}
+	endpoint := "add-chain"
+	if it.Cross.Type == "precert" {
+		endpoint = "add-pre-chain"
+	}
+	i1 := c09PKIs["accepted"].i1
+	leaf := c09Leaf(it.Label(), i1, c09NotAfter("start+1s"), it.Cross.Type == "precert", "serverAuth")
+	chains := map[byte][][]byte{'A': {leaf, i1.der}, 'B': {leaf, c09Cross.der}}
+	var subs []*c09Sub
+	var effs [][]*x509.Certificate
+	var fps [][][32]byte
+	for i := 0; i < 2; i++ {
+		c := chains[it.Cross.Order[i]]
+		ok, eff, why := c09Predicate(c, env.roots, endpoint)
+		if !ok {
+			c09Fail("%s: chain %c is not acceptable: %s", it.Label(), it.Cross.Order[i], why)
+		}
+		ref, err := c09DeriveEntry(eff)
+		if err != nil {
+			c09Fail("%s: %v", it.Label(), err)
+		}
+		subs = append(subs, &c09Sub{Endpoint: endpoint, Chain: c, LeafDER: leaf, Body: c09Body(c)})
+		effs = append(effs, eff)
+		fps = append(fps, ref.Fingerprints)
+	}
+	oldN := env.treeSize()
+	if it.Cross.Mode == "after-sequencing" {
+		env.submitAll(subs[:1])
+		env.submitAll(subs[1:])
+	} else {
+		fl := &c09Flight{env: env}
+		fl.launch(subs[0])
+		fl.settle(0) // the first is parked in the pool
+		fl.launch(subs[1])
+		fl.settle(c09BlockedWait) // the second joins the same pool entry (never counted as pending)
+		fl.drain()
+	}
+	newN := env.treeSize()
+	rp.Add("submissions", 2)
+	leaves, err := env.readLeaves(0, newN)
+	if err != nil {
+		r.viol(it, "reading the sequenced leaves back: %v", err)
+		return
+	}
+	claimed := map[int64]bool{}
+	for i, s := range subs {
+		where := fmt.Sprintf("submission %d (chain %c)", i+1, it.Cross.Order[i])
+		if s.code != 200 {
+			r.viol(it, "%s: acceptable chain rejected with status %d: %s", where, s.code, c09Clip(s.resp))
+			continue
+		}
+		rp.Add("accepted", 1)
+		sct, err := c09ParseSCT(s.resp)
+		if err != nil {
+			r.viol(it, "%s: unparsable add-chain response %s: %v", where, c09Clip(s.resp), err)
+			continue
+		}
+		if sct.index < oldN || sct.index >= newN {
+			r.viol(it, "%s: SCT leaf_index %d outside [%d,%d)", where, sct.index, oldN, newN)
+			continue
+		}
+		claimed[sct.index] = true
+		r.checkAccepted(it, where+" (judged at the end)", sct, leaves[sct.index], effs[i], fps...)
+	}
+	for idx := oldN; idx < newN; idx++ {
+		if !claimed[idx] {
+			r.viol(it, "leaf %d was sequenced but no accepted submission's SCT points at it", idx)
+		}
+	}
+	rp.Eval(it.Label())
+	rp.Sample(map[string]any{"case": it.Label(), "status": []int{subs[0].code, subs[1].code}, "new_leaves": newN - oldN})
+}
+
 func c09Enumerate() []c09Item {
 	var out []c09Item
 	for _, root := range c09Roots {
@@ -446,9 +650,15 @@ type c09Runner struct {
 	items []c09Item
 	env   *c09Env
 	codes map[string][2]int
+	owner *c09Item
 }
 
 func (r *c09Runner) viol(it c09Item, format string, a ...any) {
+	if r.owner != nil && it.Label() != r.owner.Label() {
+		// a scenario (reload history, ...) owns the replay; name the inner case in the message
+		r.rp.Violation("C09", r.owner.scenario(), *r.owner, "%s: [%s] %s", r.owner.Label(), it.Label(), fmt.Sprintf(format, a...))
+		return
+	}
 	r.rp.Violation("C09", it.scenario(), it, "%s: %s", it.Label(), fmt.Sprintf(format, a...))
 }
 
@@ -496,7 +706,7 @@ func c09RunBatch(rp *verifmc.Report, items []c09Item) {
 	}
 }
 
-func (r *c09Runner) phase(phase int) {
+func (r *c09Runner) phase(phase int) (codes []int) {
 	env := r.env
 	subs := make([]*c09Sub, len(r.items))
 	for i, it := range r.items {
@@ -515,15 +725,18 @@ func (r *c09Runner) phase(phase int) {
 	leaves, err := env.readLeaves(oldN, newN)
 	if err != nil {
 		r.viol(r.items[0], "phase %d: reading the sequenced leaves back: %v", phase, err)
-		return
+		return nil
 	}
 	claimed := map[int64]bool{}
 	accepted := 0
 	for i, s := range subs {
 		it := r.items[i]
-		c := r.codes[it.Label()]
-		c[phase] = s.code
-		r.codes[it.Label()] = c
+		if phase < 2 {
+			c := r.codes[it.Label()]
+			c[phase] = s.code
+			r.codes[it.Label()] = c
+		}
+		codes = append(codes, s.code)
 
 		judged, want, why := true, false, "malformed body"
 		var effective []*x509.Certificate
@@ -596,12 +809,13 @@ func (r *c09Runner) phase(phase int) {
 			r.viol(r.items[0], "phase %d: leaf %d was sequenced but no accepted submission's SCT points at it", phase, idx)
 		}
 	}
+	return codes
 }
 
 // checkAccepted holds an accepted submission to the property: the stored leaf
 // equals the reference RFC 6962 entry of the effective (verified) chain, every
 // chain certificate is retrievable under issuer/<sha256>, and the SCT verifies.
-func (r *c09Runner) checkAccepted(it c09Item, where string, sct *c09SCT, stored *verifmc.RefEntry, effective []*x509.Certificate) {
+func (r *c09Runner) checkAccepted(it c09Item, where string, sct *c09SCT, stored *verifmc.RefEntry, effective []*x509.Certificate, altFPs ...[][32]byte) {
 	env := r.env
 	ref, err := c09DeriveEntry(effective)
 	if err != nil {
@@ -609,6 +823,13 @@ func (r *c09Runner) checkAccepted(it c09Item, where string, sct *c09SCT, stored 
 	}
 	exp := &verifmc.RefEntry{Timestamp: int64(sct.Timestamp), Index: sct.index, IsPrecert: ref.IsPrecert,
 		IssuerKeyHash: ref.IssuerKeyHash, Cert: ref.Cert, PreCert: ref.PreCert, Fingerprints: ref.Fingerprints}
+	for _, alt := range altFPs {
+		// a deduplicated resubmission through another valid chain: the stored
+		// leaf may carry the fingerprints of the chain it was first logged with
+		if fmt.Sprintf("%x", alt) == fmt.Sprintf("%x", stored.Fingerprints) {
+			exp.Fingerprints = alt
+		}
+	}
 	if d := c09Diff(exp, stored); d != "" {
 		r.viol(it, "%s: stored leaf %d differs from the reference RFC 6962 entry: %s", where, sct.index, d)
 	}
@@ -714,11 +935,15 @@ func TestVerifC09(t *testing.T) {
 	}()
 	if rf := rp.Replay(); rf != nil {
 		var it c09Item
-		if err := json.Unmarshal(rf.Input, &it); err != nil || (it.Tuple == nil && it.Malformed == "" && it.Fault == nil) {
+		if err := json.Unmarshal(rf.Input, &it); err != nil || (it.Tuple == nil && it.Malformed == "" && it.Fault == nil && it.Reload == nil && it.Cross == nil) {
 			c09Fail("replay input is not a C09 item: %v", err)
 		}
 		if it.Fault != nil {
 			c09RunFault(rp, it)
+		} else if it.Reload != nil {
+			c09RunReload(rp, it)
+		} else if it.Cross != nil {
+			c09RunCross(rp, it)
 		} else {
 			c09RunBatch(rp, []c09Item{it})
 		}
@@ -753,5 +978,27 @@ func TestVerifC09(t *testing.T) {
 			break
 		}
 		c09RunFault(rp, it)
+	}
+	// Root-reload histories and cross-chain resubmissions.
+	var extra []c09Item
+	for _, h := range c09ReloadHistories {
+		extra = append(extra, c09Item{Reload: &c09Reload{Name: h.Name, Steps: h.Steps}})
+	}
+	rp.Note("root_reload_histories", fmt.Sprintf("%d histories over the root alphabet {1,2,3} (strict subset, strict superset, remove+add, identical, reordered, disjoint, subset then superset, shrink twice, subset of three); after every reload: get-roots == new set, _roots.pem == new PEM, one chain per root PKI (incl. an unknown one) accepted iff its root is in the new set; restart at the end", len(extra)))
+	cross := c09EnumerateCross()
+	rp.Note("cross_chain_resubmissions", fmt.Sprintf("%d scenarios: one leaf through two valid chains (I1 cross-certified by two accepted roots) x {certificate, precertificate} x {second after the first was sequenced, both in the same pool} x {order AB, BA}; every accepted request's verified chain must be retrievable at the end", len(cross)))
+	for _, it := range append(extra, cross...) {
+		batch++
+		if !rp.Mine(batch) {
+			continue
+		}
+		if rp.Expired() {
+			break
+		}
+		if it.Reload != nil {
+			c09RunReload(rp, it)
+		} else {
+			c09RunCross(rp, it)
+		}
 	}
 }
